@@ -88,7 +88,9 @@ QSegOK(qo, qi) ==
        qdir == QDirect(qo, qi+1, qj, <<>>)
        \* the submachine consumed this occurrence (its process_event_internal returned handled or deferred)
        qinner == \E qq \in 1..Len(qdir) : LET qr == qo[qdir[qq]] IN
-                    qr.k = "peiend" /\ qr.m = qst /\ qr.e = qo[qi].e /\ qr.p = qo[qi].x /\ qr.i = qo[qi].i /\ Consumed(qr.x)
+                    \/ qr.k = "peiend" /\ qr.m = qst /\ qr.e = qo[qi].e /\ qr.p = qo[qi].x /\ qr.i = qo[qi].i /\ Consumed(qr.x)
+                    \* ... or swallowed it because a terminate / interrupt state is active in it (C11)
+                    \/ qr.k = "blk" /\ qr.m = qst /\ qr.e = qo[qi].e /\ qr.p = qo[qi].x /\ qr.i = qo[qi].i /\ ~(IsB /\ qr.e = "none")
        qgidx == SelectSeq(qdir, LAMBDA qx : qo[qx].k = "g" /\ qo[qx].m = qm /\ qo[qx].i = qo[qi].i)
        qG    == [qq \in 1..Len(qgidx) |-> qo[qgidx[qq]].id]
        qGR   == [qq \in 1..Len(qgidx) |-> qo[qgidx[qq]].r]
@@ -117,7 +119,10 @@ QTransOK(qo, qi) ==
    LET qj == QTakenPos(qo, qi)
        qm == qo[qi].m
        qrow == QRowOfTake(qo[qi])
-       qwin == QOutsidePei(qo, qi+1, qj, <<>>)
+       \* nested run-to-completion steps are not part of this transition: the processing of queued occurrences (pei .. peiend) and the
+       \* completion dispatches backmp11 performs when it drains the pool at the end of a submachine's entry (disp .. dispend)
+       qdirect == QDirect(qo, qi+1, qj, <<>>)
+       qwin == SelectSeq(QOutsidePei(qo, qi+1, qj, <<>>), LAMBDA qx : \E qq \in 1..Len(qdirect) : qdirect[qq] = qx)
        qcbs == SelectSeq(qwin, LAMBDA qx : IsCb(qo[qx]) /\ qo[qx].i = qo[qi].i)
        qkinds == [qq \in 1..Len(qcbs) |-> qo[qcbs[qq]].k]
        qexs == SelectSeq(qcbs, LAMBDA qx : qo[qx].k = "ex")
